@@ -426,12 +426,18 @@ def drift_oracles(ck, dm):
         for TR in (1.0, 2.0, 2.5, 0.7):
             base_c, base_p = {}, {}
             for start in starts_for(TR, n, ck.thorough()) + ["far", "tmax0"]:
-                tag = "start0" if start == 0.0 else ("far-origin" if start == "far" else ("tmax-zero" if start == "tmax0" else "shifted"))
                 if start == "far":
                     start = 1000.0
                 elif start == "tmax0":
                     start = -(n - 1) * TR
                 ft = start + TR * np.arange(n)
+                # structural class of the time origin
+                if ft.max() == 0:
+                    tag = "tmax-zero"
+                elif abs(start) > 2 * (n - 1) * TR:
+                    tag = "far-origin"          # origin farther away than twice the run length
+                else:
+                    tag = "start0" if start == 0.0 else "shifted"
                 # ------------------------------------------------ cosine
                 for period in ((n * TR / 3.1, n * TR / 1.3, 2.0 * TR, 128.0, 7.3 * TR) if tag in ("start0", "shifted") else (n * TR / 3.1,)):
                     ndr += 1
